@@ -881,13 +881,32 @@ mod n {
     // the attributes under which the links listed by the property are written (wall -> construction / adjacent space,
     // construction -> layers, layers -> material, window -> window construction, window construction -> glazing /
     // frame, space -> loads / thermostat, loads / thermostat -> yearly schedule, yearly -> weekly -> daily schedule)
-    const LINK_KEYS: [(&str, &str); 18] = [
+    const LINK_KEYS: [(&str, &str); 19] = [
         ("EXTERIOR-WALL", "CONSTRUCTION"), ("INTERIOR-WALL", "CONSTRUCTION"), ("UNDERGROUND-WALL", "CONSTRUCTION"), ("ROOF", "CONSTRUCTION"),
         ("INTERIOR-WALL", "NEXT-TO"), ("CONSTRUCTION", "LAYERS"), ("LAYERS", "MATERIAL"), ("WINDOW", "GAP"),
         ("GAP", "GLASS-TYPE"), ("GAP", "NAME-FRAME"), ("SPACE", "SPACE-CONDITIONS"), ("SPACE", "SYSTEM-CONDITIONS"),
         ("SPACE-CONDITIONS", "PEOPLE-SCHEDULE"), ("SPACE-CONDITIONS", "EQUIP-SCHEDULE"), ("SPACE-CONDITIONS", "LIGHTING-SCHEDULE"),
         ("SYSTEM-CONDITIONS", "COOL-TEMP-SCH"), ("SYSTEM-CONDITIONS", "HEAT-TEMP-SCH"), ("WEEK-SCHEDULE-PD", "DAY-SCHEDULES"),
+        ("SCHEDULE-PD", "WEEK-SCHEDULES"),
     ];
+
+    /// the kind of definition a link attribute names
+    fn expected_kind(key: &str) -> &'static str {
+        match key {
+            "CONSTRUCTION" => "CONSTRUCTION",
+            "NEXT-TO" => "SPACE",
+            "LAYERS" => "LAYERS",
+            "MATERIAL" => "MATERIAL",
+            "GAP" => "GAP",
+            "GLASS-TYPE" => "GLASS-TYPE",
+            "NAME-FRAME" => "NAME-FRAME",
+            "SPACE-CONDITIONS" => "SPACE-CONDITIONS",
+            "SYSTEM-CONDITIONS" => "SYSTEM-CONDITIONS",
+            "WEEK-SCHEDULES" => "WEEK-SCHEDULE-PD",
+            "DAY-SCHEDULES" => "DAY-SCHEDULE-PD",
+            _ => "SCHEDULE-PD",
+        }
+    }
 
     // every project obtained from a shipped one by breaking ONE written reference (the definition stays, one place that
     // names it now names nothing): rejected; a model is acceptable only when the block that holds the reference is not
@@ -903,6 +922,7 @@ mod n {
             // part of the model: an element of that name, or - for a CONSTRUCTION, which the model does not keep by
             // name - a wall of the model that uses it)
             sites: Vec<(usize, String, String, String, String, bool)>,
+            defs: Vec<(usize, String, String)>,
         }
         let catalogue = hulc::ctehexml::load_lider_catalog().expect("LIDER catalogue");
         let projects: Vec<Project> = project_files()
@@ -953,21 +973,39 @@ mod n {
                         sites.push((at, name, block, key, holder, used));
                     }
                 }
-                Project { fname: f.file_name().unwrap().to_string_lossy().to_string(), text, base_json, base_links, sites }
+                Project { fname: f.file_name().unwrap().to_string_lossy().to_string(), text, base_json, base_links, sites, defs }
             })
             .collect();
-        drive("C02.broken_sites", "all 12 shipped .ctehexml projects: ONE place where a link of the property's list is written (wall -> construction / adjacent space, construction -> layers, layers -> material, window -> window construction, window construction -> glazing / frame, space -> loads / thermostat, loads / thermostat -> yearly schedule, yearly -> weekly -> daily schedule) renamed to a name that is not defined; every such place (4 100), one at a time", |c| {
+        drive("C02.broken_sites", "all 12 shipped .ctehexml projects: ONE place where a link of the property's list is written (wall -> construction / adjacent space, construction -> layers, layers -> material, window -> window construction, window construction -> glazing / frame, space -> loads / thermostat, loads / thermostat -> yearly schedule, yearly -> weekly -> daily schedule) renamed to a name that is not defined, or - for the links to loads, thermostats and schedules - to the name of an element of another of these kinds (a schedule of another level, loads, a thermostat); every such place (4 300), one at a time, each way", |c| {
             c.check("C02.broken_sites.corpus", projects.len() >= 12 && projects.iter().all(|p| p.sites.len() >= 15), || format!("reference places not found: {:?}", projects.iter().map(|p| p.sites.len()).collect::<Vec<_>>()));
             let k = c.pick(projects.len());
             let p = &projects[k];
             c.check("C02.broken.base_converts", p.base_json.is_some(), || format!("{} itself does not convert", p.fname));
             let Some(base_json) = p.base_json.as_ref() else { return };
             let s = c.pick(p.sites.len());
+            // the place now names nothing at all, or an element of ANOTHER kind (a daily schedule where a weekly one is
+            // expected ...): no definition of the expected kind carries that name either way
+            const STAND_INS: [&str; 5] = ["DAY-SCHEDULE-PD", "WEEK-SCHEDULE-PD", "SCHEDULE-PD", "SPACE-CONDITIONS", "SYSTEM-CONDITIONS"];
+            let edit = c.pick(1 + STAND_INS.len());
+            let other_kind = edit > 0;
             let (at, name, block, key, holder, used) = &p.sites[s];
-            let what = format!("{}: {} \"{}\".{} = \"{}\" renamed", p.fname, block, holder, key, name);
-            c.note(what.clone());
             let mut t = p.text.clone();
-            t.insert_str(at + name.len(), "_gone");
+            let what = if other_kind {
+                let want = expected_kind(key);
+                // (for links to constructions, materials ... a schedule's name is just another undefined name)
+                if !STAND_INS.contains(&want) {
+                    return;
+                }
+                let kind = STAND_INS[edit - 1];
+                let stand_in = p.defs.iter().find(|d| d.2 == kind && d.2 != want && !p.defs.iter().any(|e| e.2 == want && e.1 == d.1));
+                let Some(stand_in) = stand_in else { return };
+                t.replace_range(*at..at + name.len(), &stand_in.1);
+                format!("{}: {} \"{}\".{} = \"{}\" now names the {} \"{}\"", p.fname, block, holder, key, name, stand_in.2, stand_in.1)
+            } else {
+                t.insert_str(at + name.len(), "_gone");
+                format!("{}: {} \"{}\".{} = \"{}\" renamed", p.fname, block, holder, key, name)
+            };
+            c.note(what.clone());
             match convert_text(t) {
                 Outcome::Model(m) => {
                     judge_model(c, &what, &m);
